@@ -259,7 +259,7 @@ REGISTRY = {
     },
     "C04": {
         "corr": "C04",
-        "classes": {1: "F9", 2: "F11", 3: "F12"},
+        "classes": {1: "F9", 2: "F11", 3: "F12", 4: "F13"},
         "harness_timeout": 3000,
         "trusted": [
             "modelled: a job as a network of replicas over bounded FIFO channels (Model/Net.v: blocking send on a full channel, blocking receive on empty wanted channels); the marker-level replica r_sem (counts FlushAndRestart / Terminate per side, broadcasts them in End's order, forwards data batches, reads only the side that has not ended the round); the detailed marker accounting of Start (Model/Start.v) and of the two-input Start's select (Model/BinaryStart.v)",
